@@ -11,10 +11,17 @@ Per case (one scene, one processTransaction):
    every orthogonal visibility edge axis-parallel and spec-unblocked (SPECFAIL / DIVERGE).
  * `UseLeesAlgorithm = false`, exactly representable scenes: dumped edge set = `Model.Visibility.visible`
    on all candidate pairs (DIVERGE).
+ * `UseLeesAlgorithm = true` (the default), exactly representable single-transaction scenes: dumped edge set =
+   `Model.LeeSweep.transactionEdges` (Lee's rotational sweep as written, incl. the decision rule of
+   `sweepVisible`, `onBorderIDs`, the status list and `newBlockingShape`) — DIVERGE on any difference.  A dumped
+   edge (or a route leg that is such an edge) which is spec-blocked AND which the modelled sweep does not produce
+   is reported as `class=sweep-model-blocks`: that failure is NOT an instance of the known weaknesses of the
+   sweep (those are reproduced by the model), so it is never absorbed by their known-finding fingerprint.
 -/
 import Driver.Proto
 import AdaptaVerif.Check.Route
 import AdaptaVerif.Model.Visibility
+import AdaptaVerif.Model.LeeSweep
 namespace Driver.C03
 open Driver AdaptaVerif.Num
 open AdaptaVerif.Model.Geometry (Pt area2)
@@ -170,7 +177,27 @@ def worst (fs : List Fail) : Option Fail :=
     | none => some f
     | some g => if f.prio < g.prio then some f else some g) none
 
-def classPrio (cls : String) : Nat := if cls == "class=other" then 0 else 1
+def classPrio (cls : String) : Nat := if cls == "class=other" || cls == "class=sweep-model-blocks" then 0 else 1
+
+/-- the Lee model is run on scenes with at most this many shapes (cost ~ (4·shapes)³) -/
+def leeModelMaxShapes : Nat := 24
+
+
+def vkey (o v : Nat) : Nat := o * 100000 + v
+def pairKey (o1 v1 o2 v2 : Nat) : Nat × Nat :=
+  let a := vkey o1 v1
+  let b := vkey o2 v2
+  if a ≤ b then (a, b) else (b, a)
+def keyLt (a b : Nat × Nat) : Bool := a.1 < b.1 || (a.1 == b.1 && a.2 < b.2)
+def sortKeys (l : List (Nat × Nat)) : Array (Nat × Nat) := l.toArray.qsort keyLt
+def hasKey (ks : Array (Nat × Nat)) (k : Nat × Nat) : Bool := (ks.binSearch k keyLt).isSome
+
+/-- the visible edge set that Lee's sweep *as modelled* produces for the transaction of this case -/
+def leeModelKeys (ignoreRegions invis : Bool) (rpolysI : List (Nat × List Pt)) (conns : List Conn) : Array (Nat × Nat) :=
+  let shapes := (rpolysI.toArray.qsort (fun a b => a.1 < b.1)).toList
+  let cs := ((conns.map fun cn => (cn.id, cn.src, cn.dst)).toArray.qsort (fun a b => a.1 < b.1)).toList
+  sortKeys ((AdaptaVerif.Model.LeeSweep.transactionEdges ignoreRegions invis shapes cs).map
+    fun e => pairKey e.1.1 e.1.2 e.2.1 e.2.2)
 
 def run1 (c : Case) : CaseResult := Id.run do
   if c.tag == "empty" then return { verdict := .ok, nontrivial := false }
@@ -203,6 +230,18 @@ def run1 (c : Case) : CaseResult := Id.run do
   let lk := if lee then "lee" else "naive"
   let allowPoly := cfgFlag c "poly"
   let ignoreRegions := cfgFlag c "ignoreRegions"
+  let invisG := cfgFlag c "invis"
+  let exact := rpolys.all (fun p => p.all fun v => smallDyadic v.x && smallDyadic v.y) &&
+               conns.all (fun cn => smallDyadic cn.src.x && smallDyadic cn.src.y && smallDyadic cn.dst.x && smallDyadic cn.dst.y)
+  -- Lee's sweep as modelled: only for one-transaction scenes (no edit history, no junctions) with exact coordinates
+  let singleTx := !hyper && (c.get1 "hist").isNone
+  let leeKeys : Option (Array (Nat × Nat)) :=
+    if allowPoly && lee && exact && singleTx && rpolys.length ≤ leeModelMaxShapes then some (leeModelKeys ignoreRegions invisG rpolysI conns) else none
+  /- a dumped visibility edge between these two points that the modelled sweep does NOT produce -/
+  let notInLeeModel (a b : Pt) : Bool :=
+    match leeKeys with
+    | none => false
+    | some ks => vis.any fun e => ((e.p1 == a && e.p2 == b) || (e.p1 == b && e.p2 == a)) && !hasKey ks (pairKey e.o1 e.v1 e.o2 e.v2)
   let mut stats : List (String × Nat) := [("shapes", shapes.length), ("conns", conns.length), ("visEdges", vis.length), ("ovisEdges", ovis.length)]
   let mut nontrivial := false
   let mut fails : List Fail := []
@@ -239,7 +278,7 @@ def run1 (c : Case) : CaseResult := Id.run do
         if routeValid shapes excl (rt.headD ⟨0,0⟩) (rt.getLastD ⟨0,0⟩) rt tolShrink then
           fails := ⟨0, .diverge "internal: prefiltered search and proven checker disagree"⟩ :: fails
         else
-          let cls := hitClass shapes i a b
+          let cls := if notInLeeModel a b then "class=sweep-model-blocks" else hitClass shapes i a b
           -- does an obstacle-free path exist at all?  (w.r.t. the routing polygons)
           let exclR := containing rpolys cn.src ++ containing rpolys cn.dst
           match findPath rpolysBB exclR cn.src cn.dst with
@@ -255,8 +294,6 @@ def run1 (c : Case) : CaseResult := Id.run do
               fails := ⟨0, .diverge "internal: exhibited path failed certification"⟩ :: fails
           | none => stats := bumpStats stats "noObstacleFreePath" 1
   -- ---------------------------------------------------------------- polyline visibility graph (mechanism)
-  let exact := rpolys.all (fun p => p.all fun v => smallDyadic v.x && smallDyadic v.y) &&
-               conns.all (fun cn => smallDyadic cn.src.x && smallDyadic cn.src.y && smallDyadic cn.dst.x && smallDyadic cn.dst.y)
   let visTol : Rat := if exact then 0 else 1 / 1000000000
   let mut nVisBad := 0
   for e in vis do
@@ -264,9 +301,12 @@ def run1 (c : Case) : CaseResult := Id.run do
     match firstHitBB visTol ex rpolysBB (e.p1, e.p2) with
     | some i =>
       nVisBad := nVisBad + 1
-      let cls := hitClass rpolys i e.p1 e.p2
-      if nVisBad ≤ 50 || cls == "class=other" then
-        fails := ⟨10 + classPrio cls, .specfail s!"vis-edge-blocked ({lk}): visibility edge [{e.o1}.{e.v1}]{ptStr e.p1}-[{e.o2}.{e.v2}]{ptStr e.p2} passes through the interior of shape {i+1} {cls}"⟩ :: fails
+      let unmodelled := match leeKeys with
+        | some ks => !hasKey ks (pairKey e.o1 e.v1 e.o2 e.v2)
+        | none => false
+      let cls := if unmodelled then "class=sweep-model-blocks" else hitClass rpolys i e.p1 e.p2
+      if nVisBad ≤ 50 || classPrio cls == 0 then
+        fails := ⟨(if unmodelled then 0 else 10 + classPrio cls), .specfail s!"vis-edge-blocked ({lk}): visibility edge [{e.o1}.{e.v1}]{ptStr e.p1}-[{e.o2}.{e.v2}]{ptStr e.p2} passes through the interior of shape {i+1} {cls}"⟩ :: fails
     | none => pure ()
   if nVisBad > 0 then stats := bumpStats stats s!"visEdgesBlocked.{lk}" nVisBad
   -- orthogonal visibility: obstacles are the shapes' bounding boxes grown by the buffer, so the edges
@@ -324,6 +364,23 @@ def run1 (c : Case) : CaseResult := Id.run do
     if ndiv == 0 && modelCount != vis.length then
       fails := ⟨6, .diverge s!"naive visibility: implementation has {vis.length} edges, model {modelCount} (edge outside the candidate pairs)"⟩ :: fails
     stats := bumpStats stats "naiveModelEdges" modelCount
+  -- ---------------------------------------------------------------- Lee's sweep = model (default algorithm)
+  if let some ks := leeKeys then
+    stats := bumpStats stats "leeModelCompared" 1
+    stats := bumpStats stats "leeModelEdges" ks.size
+    let visKeys := sortKeys (vis.map fun e => pairKey e.o1 e.v1 e.o2 e.v2)
+    let mut ndiv := 0
+    for e in vis do
+      if !hasKey ks (pairKey e.o1 e.v1 e.o2 e.v2) then
+        ndiv := ndiv + 1
+        if ndiv ≤ 3 then
+          fails := ⟨1, .diverge s!"lee visibility: edge [{e.o1}.{e.v1}]{ptStr e.p1}-[{e.o2}.{e.v2}]{ptStr e.p2} model=false implementation=true"⟩ :: fails
+    for k in ks do
+      if !hasKey visKeys k then
+        ndiv := ndiv + 1
+        if ndiv ≤ 3 then
+          fails := ⟨1, .diverge s!"lee visibility: edge [{k.1 / 100000}.{k.1 % 100000}]-[{k.2 / 100000}.{k.2 % 100000}] model=true implementation=false"⟩ :: fails
+    if ndiv > 0 then stats := bumpStats stats "leeModelDiffs" ndiv
   match worst fails with
   | some f => return { verdict := f.verdict, nontrivial := nontrivial, stats := bumpStats stats "failuresInCase" fails.length }
   | none => return { verdict := .ok, nontrivial := nontrivial, stats := stats }
